@@ -65,6 +65,9 @@ type genConfig struct {
 	// FuncTwins: textually identical function literals in several top-level statements, and comparisons of the
 	// resulting function values (function values are compared by identity).
 	FuncTwins bool
+	// VarParams adds a variadic parameter PR after the fixed ones (the host passes three surplus arguments); the script
+	// reads and overwrites its elements.
+	VarParams bool
 	// NilGlobals: the host runs the VM without a globals object. The host functions arrive as parameters after PA, PB
 	// and the script keeps a global GV of its own (first assigned from PA, so that it differs per VM).
 	NilGlobals bool
@@ -755,14 +758,17 @@ func (g *gen) stmt(lvl int) string {
 func (g *gen) shareStmt(lvl int) string {
 	in := ind(lvl)
 	e := g.fresh("err")
-	switch g.t.Draw(8) {
+	switch g.t.Draw(9) {
+	case 8: // a writable value made from a constant: the constant itself must stay what it was
+		b, lit := g.fresh("b"), g.strLit()
+		return in + b + " := bytes(" + lit + ")\n" + in + "if len(" + b + ") > 0 { " + b + "[0] = 65 + len(WID) }\n" + in + "log(string(" + b + "), " + lit + ")\n"
 	case 7: // callbacks nested many levels deep: every level holds a pooled child VM of its own
 		f, d := g.fresh("fr"), g.fresh("d")
 		return in + "var " + f + "\n" + in + f + " = func(n) {\n" + in + "\tif n <= 0 { return len(WID) }\n" + in + "\t" + d + " := 0\n" +
 			in + "\timport(\"strings\").Map(func(c) { " + d + " = " + f + "(n - 1); return c }, \"a\")\n" + in + "\treturn " + d + " + 1\n" + in + "}\n" +
 			in + "log(" + f + "(" + fmt.Sprint(12+g.t.Draw(40)) + "))\n"
 	case 6: // a Go builtin module function with internal look-ups
-		zone := []string{"\"UTC\"", "\"\"", "\"Local\"", fmt.Sprintf("\"Etc/GMT+%d\"", 1+g.t.Draw(12)), fmt.Sprintf("\"Etc/GMT-%d\"", 1+g.t.Draw(14))}[g.t.Draw(5)]
+		zone := []string{"\"UTC\"", "\"\"", "\"Local\"", fmt.Sprintf("\"Etc/GMT+%d\"", 1+g.t.Draw(12)), fmt.Sprintf("\"Etc/GMT-%d\"", 1+g.t.Draw(14)), fmt.Sprintf("\"No/Such%d\"", g.t.Draw(30))}[g.t.Draw(6)]
 		e := g.fresh("err")
 		return in + "try {\n" + in + "\tlog(string(import(\"time\").LoadLocation(" + zone + ")))\n" + in + "} catch " + e + " {\n" + in + "\tlog(\"no such zone\")\n" + in + "}\n"
 	case 5: // a runtime error built from a process-wide sentinel (ZeroDivisionError): deriving a new error from it must not touch the sentinel
@@ -913,6 +919,9 @@ func (g *gen) program() (string, []srcModule) {
 		g.declare(gvar{name: "PA", t: tInt})
 		g.declare(gvar{name: "PB", t: tStr})
 	}
+	if g.cfg.VarParams {
+		g.declare(gvar{name: "PR", t: tArr})
+	}
 	if g.cfg.Modules {
 		for i, n := 0, g.t.Draw(3); i < n; i++ {
 			g.genModule(i)
@@ -1001,12 +1010,19 @@ func (g *gen) program() (string, []srcModule) {
 		g.addTop("fzm := func() { zm := import(\"modA\"); return zm.inc() }\n" +
 			"log(\x01fzm\x02\x03, \x01fzm\x02\x03)\nlog(import(\"modA\").get())\n")
 	}
+	if g.cfg.VarParams && g.t.Bool(2, 3) {
+		g.addTop(fmt.Sprintf("if len(PR) > %d { PR[%d] = len(WID) * %d }\nlog(PR)\n", 1+g.t.Draw(2), g.t.Draw(2), 2+g.t.Draw(7)))
+	}
 	g.addTop(g.probe())
+	pr := ""
+	if g.cfg.VarParams {
+		pr = ", ...PR"
+	}
 	if g.cfg.NilGlobals {
-		return "param (PA, PB, log, op, choose, call, trace, WID)\nglobal GV\nGV = PA*7 + 1\n" + strings.Join(g.Top, ""), g.mods
+		return "param (PA, PB, log, op, choose, call, trace, WID" + pr + ")\nglobal GV\nGV = PA*7 + 1\n" + strings.Join(g.Top, ""), g.mods
 	}
 	if g.cfg.Params {
-		return sim.Prelude + "param (PA, PB)\n" + strings.Join(g.Top, ""), g.mods
+		return sim.Prelude + "param (PA, PB" + pr + ")\n" + strings.Join(g.Top, ""), g.mods
 	}
 	return sim.Prelude + strings.Join(g.Top, ""), g.mods
 }
